@@ -52,6 +52,32 @@ def _only_sym(l):
     return None
 
 
+def _path_facts(stmt, stop):
+    """Conjuncts known to hold at `stmt` from the if-tests between it and the loop `stop` (then-branch: the conjuncts of the test;
+    else-branch: the negated disjuncts), as canonical text."""
+    facts = []
+    cur = stmt
+    while cur is not None and cur is not stop:
+        par = getattr(cur, '_parent', None)
+        if isinstance(par, ast.If):
+            t = par.test
+            if any(cur is x for x in par.body):
+                vals = t.values if isinstance(t, ast.BoolOp) and isinstance(t.op, ast.And) else [t]
+                facts += [unparse(v) for v in vals]
+            elif any(cur is x for x in par.orelse):
+                vals = t.values if isinstance(t, ast.BoolOp) and isinstance(t.op, ast.Or) else [t]
+                for v in vals:
+                    if isinstance(v, ast.UnaryOp) and isinstance(v.op, ast.Not):
+                        facts.append(unparse(v.operand))
+                    elif isinstance(v, ast.Compare) and len(v.ops) == 1 and isinstance(v.ops[0], (ast.IsNot, ast.Is, ast.Eq, ast.NotEq)):
+                        neg = {ast.IsNot: 'is', ast.Is: 'is not', ast.Eq: '!=', ast.NotEq: '=='}[type(v.ops[0])]
+                        facts.append(f'{unparse(v.left)} {neg} {unparse(v.comparators[0])}')
+                    else:
+                        facts.append(f'not {unparse(v)}')
+        cur = par
+    return facts
+
+
 def _buffer_trace(copy, dcs):
     """Symbolic run of the statement list that holds the buffer copy, up to the `if` that decompresses the buffered frame.
     Returns dict(copy=(lo, hi, m, _pos, _size, len(block)) at the copy, test=(left-right of the == test, _pos, _size) at the test,
@@ -342,6 +368,19 @@ def run(chk):
         chk.check(okd and okb and oks and okbuf and srcok, 'C14-S3', AS, D, f'frame completion ({"buffered" if buffered else "direct"})', '',
                   f'after decompress_ptr: dest={dest!r} (ok={okd}), bytesout advanced={okb}, _size reset={oks}, buffer released={okbuf}, source={srctxt}',
                   node=d)
+        if not buffered:
+            # typestate of the reassembly buffer: a frame decompressed straight from the chunk finishes the frame (_size = 0) without touching
+            # _buffer, so no buffer may be live on that path -- otherwise the NEXT frame that is cut by a chunk boundary finds `_buffer is not
+            # None`, skips the allocation and is copied into an array sized for an earlier frame.  The guards of the path must give `_buffer is None`
+            # (or the path releases the buffer itself).
+            facts = _path_facts(blk[i], W)
+            none_txt = ('_buffer is None', 'not _buffer is not None', '_buffer == None')
+            okts = any(f in none_txt for f in facts) or bool(resets)
+            chk.check(okts, 'C14-S3', AS, D, 'direct decompression only when no reassembly buffer is live (the buffer in use was sized for the current frame)',
+                      f'path guards: {facts[:4]}',
+                      f'the direct branch is reached under {facts[:4]}, which does not give `_buffer is None`, and it does not release the buffer: a buffer allocated for this '
+                      'frame (e.g. an empty one, when a chunk ended right behind the length prefix) stays live after `_size = 0`; the next frame split across chunks is '
+                      'copied into that stale buffer of another frame\'s size (broadcast error or a truncated frame): the result depends on how the stream is chunked', node=d)
     # ---- S4
     copy = [n for n in walk_no_nested(W) if isinstance(n, ast.Assign) and isinstance(n.targets[0], ast.Subscript) and unparse(n.targets[0].value) == '_buffer']
     # The buffered branch is executed symbolically as straight-line integer code (values are linear forms over the values at the
